@@ -32,7 +32,10 @@ def wf_result(r, seqlen=None, optimized=True):
     bl = blocks_of(r)
     parts = [And(0 <= s, s <= e) for s, e in bl]
     parts.append(r.length == sum((e - s for s, e in bl), 0))
-    parts.append(And(r.start == bl[0][0], r.end == bl[-1][1]))
+    mx = bl[0][1]
+    for _s, _e in bl[1:]:
+        mx = Max(mx, _e)
+    parts.append(And(r.start == bl[0][0], r.end == mx))  # end = the largest block end
     for (s1, e1), (s2, e2) in zip(bl, bl[1:]):
         parts.append(s1 <= s2)
     if optimized:
